@@ -480,8 +480,9 @@ def _lin_eval(e, env):
         a, b = _lin_eval(e[2], env), _lin_eval(e[3], env)
         if a is None or b is None:
             return None
-        if e[1] == 'Add': return a + b
-        if e[1] == 'Sub': return a - b
+        op = e[1][:-len('WithOverflow')] if e[1].endswith('WithOverflow') else e[1]
+        if op == 'Add': return a + b
+        if op == 'Sub': return a - b
         return None
     return None
 
@@ -527,3 +528,115 @@ def move_keeps_history(ctx):
         ctx.violation(key, f.loc(b, si), 'move_offset = (%d*read_pos %+d %+d*keep_size_before) & %d can exceed read_pos + 1 - keep_size_before: fewer than '
                       'keep_size_before bytes of history are kept, and the unchecked reads of extend_match / the match finders at distance close to the '
                       'dictionary size start in front of the buffer' % (c_rp - c0, c0, c_kb - c0, mask))
+
+
+# --------------------------------------------------------------------------- DIST-WINDOW
+
+@rule('DIST-WINDOW', ['C01'], floor=7)
+def dist_window(ctx):
+    """The match finders accept a candidate at distance `delta` positions back only if it is still inside the
+    dictionary: delta < cyclic_size (= dict_size + 1), i.e. the coded distance delta - 1 is at most dict_size - 1,
+    which is what every decoder accepts. All seven comparisons of a candidate distance with `cyclic_size` in HC4 and
+    BT4 (two hash shortcuts and the chain / tree walk in each, plus BT4's skip) must agree on that: accepting side
+    strictly below cyclic_size. `delta > cyclic_size` as the rejection test lets delta == cyclic_size through: a match
+    one byte beyond the dictionary, which the reader rejects ("dist overflow")."""
+    F = ctx.facts
+    n = 0
+    for f in F.fns:
+        if not (f.self_adt and last_seg(f.self_adt) in ('HC4', 'BT4')) or f.kind == 'closure':
+            continue
+        prov = Prov(f)
+        cnt = 0
+        for b in sorted(f.reachable):
+            t = f.blocks[b]['term']
+            if t['k'] != 'switch' or switch_edges(f, b) is None:
+                continue
+            cond = prov.operand(t['discr'], 0, '%d:T' % b)
+            nc = norm_cmp(cond, True) if cond[0] in ('bin', 'un') else None
+            if not nc or nc[0] not in ('Lt', 'Le'):
+                continue
+            a, c2 = nc[1], nc[2]
+            fa, fc = _self_field(_strip(a)), _self_field(_strip(c2))
+            if (fa == 'cyclic_size') == (fc == 'cyclic_size'):
+                continue
+            other = c2 if fa == 'cyclic_size' else a
+            if _self_field(_strip(other)) in ('cyclic_pos', 'lz_pos'):
+                continue
+            n += 1
+            cnt += 1
+            key = '%s:candidate-distance-strictly-below-cyclic_size%s' % (f.key, '' if cnt == 1 else '#%d' % cnt)
+            # accept iff other < cyclic_size:  Lt(other, cyclic)  or  Le(cyclic, other) [= reject edge]
+            good = (nc[0] == 'Lt' and fc == 'cyclic_size') or (nc[0] == 'Le' and fa == 'cyclic_size')
+            if good:
+                ctx.ok(key, f.loc(b), '%s %s %s' % (expr_str(a)[:40], nc[0], expr_str(c2)[:40]))
+            else:
+                ctx.violation(key, f.loc(b), 'compares a candidate distance with cyclic_size as `%s %s %s`: a candidate exactly cyclic_size positions '
+                              'back (coded distance = dict_size, one beyond the dictionary) is accepted; every reader rejects that match'
+                              % (expr_str(a)[:40], nc[0], expr_str(c2)[:40]))
+    if not n:
+        ctx.anchor_missing('comparisons of candidate distances with cyclic_size in the match finders')
+
+
+# --------------------------------------------------------------------------- RESET-CONTEXT-BYTE
+
+@rule('RESET-CONTEXT-BYTE', ['C01'], floor=1)
+def reset_context_byte(ctx):
+    """After a dictionary reset the first literal is coded with "previous byte = 0" (the encoder starts a fresh window).
+    The decoder reads the previous byte with `get_byte(0)`, which at pos = 0 wraps to the cell `buf[buf_size - 1]`:
+    `LZDecoder::reset` must store 0 into exactly the cell that `get_byte`'s wrap branch addresses for pos = 0, dist = 0.
+    Otherwise the stale last byte of the old window selects the literal context after a mid-stream dictionary reset
+    (independent LZMA2 chunks read by the single-threaded reader) and decoding diverges."""
+    F = ctx.facts
+    gb = [f for f in F.fns if f.key == 'LZDecoder::get_byte']
+    rs = [f for f in F.fns if f.key == 'LZDecoder::reset']
+    if not gb or not rs:
+        ctx.anchor_missing('LZDecoder::get_byte / LZDecoder::reset')
+        return
+    key = 'LZDecoder::reset:cell-read-at-position-zero-is-cleared'
+    g, r = gb[0], rs[0]
+    pg, pr = Prov(g), Prov(r)
+    def lin(e, extra):
+        def env(name):
+            return extra.get(name)
+        return _lin_eval(e, env)
+    # index expressions of get_byte: evaluate at pos = 0, dist = 0 with buf_size = S for two S to recover a*S + b
+    wrap = None
+    for b in sorted(g.reachable):
+        for si, s in enumerate(g.blocks[b]['stmts']):
+            if s['k'] == 'assign' and s['rv']['r'] == 'bin' and s['rv']['op'].startswith('Sub'):
+                e = pg.rvalue(s['rv'], 0, '%d:%d' % (b, si))
+                if any(x[0] == 'field' and x[2] == 'buf_size' for x in expr_walk(e)):
+                    def ev(S, e=e):
+                        def sub(x):
+                            if isinstance(x, tuple) and x[0] == 'param' and x[1] >= 2:
+                                return ('const', 'usize', 0)
+                            if isinstance(x, tuple):
+                                return tuple(sub(y) if isinstance(y, tuple) else ([sub(z) for z in y] if isinstance(y, list) else y) for y in x)
+                            return x
+                        return _lin_eval(sub(e), lambda nm: {'buf_size': S, 'pos': 0}.get(nm))
+                    v1, v2 = ev(1000), ev(2000)
+                    if v1 is not None and v2 is not None:
+                        cand = ((v2 - v1) // 1000, v1 - ((v2 - v1) // 1000) * 1000)
+                        # the complete index is the one with the smallest constant (buf_size + pos - dist, then - 1)
+                        if wrap is None or cand[1] < wrap[1]:
+                            wrap = cand
+    if wrap is None:
+        ctx.violation(key, g.loc(0), 'cannot find the wrap-around index of get_byte (buf_size + pos - dist - 1): anchor lost (fail closed)')
+        return
+    # stores buf[idx] = 0 in reset
+    ok = None
+    for bi, t, c in r.calls():
+        if c.name == 'index_mut' and len(t['args']) == 2:
+            idx = pr.operand(t['args'][1], 0, '%d:T' % bi)
+            v1 = _lin_eval(idx, lambda nm: {'buf_size': 1000}.get(nm))
+            v2 = _lin_eval(idx, lambda nm: {'buf_size': 2000}.get(nm))
+            if v1 is None or v2 is None:
+                continue
+            a = (v2 - v1) // 1000
+            if (a, v1 - a * 1000) == wrap:
+                ok = bi
+    if ok is not None:
+        ctx.ok(key, r.loc(ok), 'get_byte(0) at pos 0 reads buf[%d*buf_size %+d]; reset stores into that cell' % wrap)
+    else:
+        ctx.violation(key, r.loc(0), 'get_byte(0) at pos 0 reads buf[%d*buf_size %+d] (the byte "before" the window), but reset does not store into that cell: '
+                      'after a dictionary reset in the middle of a stream the stale last byte of the old window selects the first literal context' % wrap)
